@@ -166,20 +166,23 @@ def matchProcRest (s : Str) : Option (Str × Str × Str) := do
   let (file, _) := optSpaceField (fun b => !isReSpace b) s4
   pure (perm, off, file)
 
+/-- `(?:\s+\(@([[:xdigit:]]+)\))?` — the capture (empty if absent) and the rest -/
+def optAtOffset (s : Str) : Str × Str :=
+  let t := skipReSpace s
+  if t.length == s.length then ([], s) else
+  match stripPrefix (asc "(@") t with
+  | none => ([], s)
+  | some u =>
+    let o := u.takeWhile isXDigit
+    match stripPrefix (asc ")") (u.dropWhile isXDigit) with
+    | none => ([], s)
+    | some v => if o.isEmpty then ([], s) else (o, v)
+
 /-- briefMapsRE after the range: `perm? (\s+\S+)? (\s+\(@hex\))? (\s+hex)?` -/
 def matchBriefRest (s : Str) : Str × Str × Str × Str :=
   let (perm, s) := optSpaceField isPermByte s
   let (file, s) := optSpaceField (fun b => !isReSpace b) s
-  let t := skipReSpace s
-  let (off, s) :=
-    if t.length == s.length then ([], s) else
-    match stripPrefix (asc "(@") t with
-    | none => ([], s)
-    | some u =>
-      let o := u.takeWhile isXDigit
-      match stripPrefix (asc ")") (u.dropWhile isXDigit) with
-      | none => ([], s)
-      | some v => if o.isEmpty then ([], s) else (o, v)
+  let (off, s) := optAtOffset s
   let (bid, _) := optSpaceField isXDigit s
   (perm, file, off, bid)
 
